@@ -78,6 +78,21 @@ def swallow_unsafe(reqs):
     return any(s == 1 and t in bad for rs in reqs for t, s, _ in rs)
 
 
+def expected_units(case):
+    """ids of all design units of the project in the notation of hook H2 (`library|kind|primary|secondary`)"""
+    out = []
+    us = case["units"]
+    for u in us:
+        lib = "l%d" % u["lib"]
+        if u["kind"] == "P":
+            out.append("%s|package|%s|-" % (lib, u["name"]))
+        elif u["kind"] == "E":
+            out.append("%s|entity|%s|-" % (lib, u["name"]))
+        else:
+            out.append("%s|architecture|%s|%s" % (lib, us[u["of"]]["name"], u["name"]))
+    return sorted(out)
+
+
 def predicted_circ(case, reqs, vec):
     """vector 'N 0 2 ...' -> sorted list of 'file:line'"""
     out = []
@@ -195,7 +210,7 @@ def known_entry():
 def obs_key(o):
     if "panic" in o or "error" in o:
         return json.dumps(o, sort_keys=True)
-    return json.dumps([o["diags"], o["nrefs"], o["refs_hash"]])
+    return json.dumps([o["diags"], o["nrefs"], o["refs_hash"], o.get("analyzed")])
 
 
 def coq_cross_check(res, sample):
@@ -436,6 +451,23 @@ def main(tier, replay=None):
             continue
         if any("seq_diags" in o for o in runs.values()):
             stats["loading_projects"] = stats.get("loading_projects", 0) + 1
+        # -- oracle 1c: no lost unit: the list DesignRoot::analyze returns for a fresh project (the units handed to the
+        #    linters) is the list of all units, on every schedule
+        if not case.get("seqref"):
+            exp_units = expected_units(case)
+            lost = [(kt, o) for kt, o in sorted(runs.items(), key=lambda x: (x[0][1], x[0][0]))
+                    if o.get("analyzed") is not None and o["analyzed"] != exp_units]
+            if lost:
+                (k, t), o = lost[0]
+                nviol += 1
+                if nviol <= 10:
+                    res.violation("DesignRoot::analyze of a freshly loaded project returned %d of its %d units as analysed under %d "
+                                  "rayon worker(s), listing order %d (%d runs of this project lose units; the linters only see "
+                                  "the returned units)" % (len(o["analyzed"]), len(exp_units), t, k, len(lost)),
+                                  replay_obj(ci, "input", {"threads": t, "k": k,
+                                                           "missing": sorted(set(exp_units) - set(o["analyzed"]))[:8],
+                                                           "surplus": sorted(set(o["analyzed"]) - set(exp_units))[:8]}))
+                continue
         # -- oracle 2: schedule independence
         groups = {}
         for kt, o in runs.items():
@@ -500,7 +532,12 @@ def main(tier, replay=None):
         "interned extended and mixed-case identifiers (symbol table race while parsing in parallel); plus loading-phase "
         "projects of 48-80 independent one-package files (3-5x the largest pool), 20-35 %% of them with a syntax error "
         "(missing `;`, missing `is`, unbalanced parenthesis, dangling operator, misspelt `end`), whose diagnostic "
-        "multiset must equal the one-file-at-a-time reference (VHDLParser on each file alone). Every project is "
+        "multiset must equal the one-file-at-a-time reference (VHDLParser on each file alone); plus hub projects (4-8 "
+        "large packages with type mismatches below operators, unresolved names, wrong argument counts, used by 16-40 "
+        "leaf packages: contention on unit locks) and lint_dep projects (10-24 sub/top pairs, the sub architecture "
+        "named by the instantiation, so it is reached as a dependency). All linters are enabled (every generated "
+        "architecture has an unused signal and an incomplete sensitivity list); the unit list returned by "
+        "DesignRoot::analyze (hook H2) must be the list of all units. Every project is "
         "loaded with Project::from_config (parallel parsing) and analysed under rayon pools of %s workers x %d library/"
         "file listing orders (different directory per order), each in a watchdog-supervised child process (no output "
         "for %d s and an idle CPU clock = deadlock). Direct stress of SymbolTable (barrier-synchronised threads "
